@@ -155,7 +155,7 @@ func (m *histMonitor) everCheck(s *regSys, repo, qk, dig, what string, viol func
 
 func c14Config(u *universe, chunked bool) alphabetConfig {
 	return alphabetConfig{Repos: u.Repos, Chunked: chunked, MaxUploads: 1, MaxUpload: 2,
-		Manifests: []int{0, 1, 2, 3, 4, 8}, Blobs: []int{1, 2}, Deletes: true, Mounts: true, UntaggedToo: true}
+		Manifests: []int{0, 1, 2, 3, 4, 8}, Blobs: []int{1, 2}, Deletes: true, Mounts: true, UntaggedToo: true, ReadsOp: true}
 }
 
 // Immutable wrapper over a mutable ocimem.
